@@ -99,7 +99,8 @@ func runWriterHistory(c *WriterCase, cv *cov, hooks *writerHooks) (v *evid.Viola
 	// bytes writer: what a Flush published through the target now belongs to the caller; later operations
 	// of the writer must not change it
 	var published, publishedWant []byte
-	var pubSpare []byte // spare capacity of the slice published by the latest Flush of a bytes writer
+	var pubSpare []byte   // spare capacity of the slice published by the latest Flush of a bytes writer
+	var bytesSoFar []byte // bytes writer: initial contents and everything flushed so far
 	flushes := 0
 	unflushed := len(initial)
 	var sawGrowth, sawLazyGrowth, sawFailThenCalls, sawMultiFlush bool
@@ -274,12 +275,14 @@ func runWriterHistory(c *WriterCase, cv *cov, hooks *writerHooks) (v *evid.Viola
 						v = evid.Failf("step %d first Flush of a bytes writer: target has %d bytes, want initial(%d)+written(%d); first difference at %d", step, len(target), len(initial), len(exp)-len(initial), firstDiff(target, exp))
 						return
 					}
-					// a later Flush: the statement's sentence about the target is about the first Flush (see DESIGN C05);
-					// whatever a later Flush does with what the target held before, it must deliver what was written
-					// since the previous Flush, so the target has to END with exactly those bytes
-					if flushes > 0 && len(exp) > 0 && !bytes.HasSuffix(target, exp) {
-						v = evid.Failf("step %d Flush number %d of a bytes writer: the target (%d bytes) does not end with the %d bytes written since the previous Flush", step, flushes+1, len(target), len(exp))
-						return
+					// every Flush: the target holds the initial contents followed by everything written so far
+					// (the harness never shortens the target between flushes)
+					if flushes > 0 && len(exp) > 0 {
+						all := append(append([]byte(nil), bytesSoFar...), exp...)
+						if !bytes.Equal(target, all) {
+							v = evid.Failf("step %d Flush number %d of a bytes writer: the target holds %d bytes, want the initial contents and everything written so far (%d bytes: %d from before this cycle + %d new); the target ends with the new bytes: %v; first difference at %d", step, flushes+1, len(target), len(all), len(bytesSoFar), len(exp), bytes.HasSuffix(target, exp), firstDiff(target, all))
+							return
+						}
 					}
 				} else {
 					var got []byte
@@ -294,6 +297,9 @@ func runWriterHistory(c *WriterCase, cv *cov, hooks *writerHooks) (v *evid.Viola
 				if got := w.WrittenLen(); got != 0 {
 					v = evid.Failf("step %d: WrittenLen=%d right after a successful Flush", step, got)
 					return
+				}
+				if c.Bytes {
+					bytesSoFar = append(bytesSoFar, exp...)
 				}
 				if c.Bytes && len(exp) > 0 {
 					published = target // alias, on purpose
